@@ -223,8 +223,15 @@ OCT [0-7]
 	("too many closing parentheses in embedded expression");
 }
 
-<STRING_EMBEDDED>"\\\"" {
-  yylval->f->str += "\\\"";
+<STRING_EMBEDDED>"\\"(.|[\n]) {
+  // Inside a nested string literal, backslash escapes the next character,
+  // be it a quote or another backslash.  Outside of one it doesn't: e.g. in
+  // "a"\"b" the second quote opens the next segment of a split literal.
+  yylval->f->str += '\\';
+  if (yylval->f->in_string)
+    yylval->f->str += yyget_text (yyscanner)[1];
+  else
+    yyless (1);
 }
 
 <STRING_EMBEDDED>"\"" {
